@@ -5,6 +5,7 @@ import (
 	"fmt"
 	"strings"
 	"sync"
+	"sync/atomic"
 	"time"
 
 	"github.com/avos-io/goat/gen/goatorepo"
@@ -246,6 +247,7 @@ func c06List(tier string, seed int64) []c06Case {
 	add("directed-send-across-cancel", 1000, tierN(tier, 24, 240))
 	add("directed-unary-deadline-in-handler", 1000, tierN(tier, 12, 120))
 	add("directed-cancel-during-open-write", 1000, tierN(tier, 12, 120))
+	add("directed-reset-after-handler-returned", 1000, tierN(tier, 12, 120))
 	return out
 }
 
@@ -429,6 +431,88 @@ func c06CancelDuringOpen(tier string, seed int64, idx int) *core.Result {
 	return res
 }
 
+// c06ResetAfterReturn: the handler sends a message and returns at once; its trailer is held in the
+// server's writer while the caller cancels, so the client's reset reaches the server after the
+// stream has been closed and unregistered there. The server has said its last word for the id.
+func c06ResetAfterReturn(tier string, seed int64, idx int) *core.Result {
+	res := &core.Result{Verdict: core.Held}
+	h := bed.NewHooks()
+	var mu sync.Mutex
+	writes := map[uint64]int{}
+	var target atomic.Uint64
+	parked := make(chan struct{}, 1)
+	release := make(chan struct{})
+	h.On("srv.writer.beforeWrite", func(id uint64) {
+		mu.Lock()
+		writes[id]++
+		n := writes[id]
+		mu.Unlock()
+		if id == target.Load() && n == 2 { // body, then the trailer
+			select {
+			case parked <- struct{}{}:
+				<-release
+			default:
+			}
+		}
+	})
+	h.Install()
+	b := bed.New(bed.Opts{Cap: idx % 3, Serialise: idx%2 == 0})
+	kind := []string{"bidi", "client"}[idx%2]
+	tag := fmt.Sprintf("rar%d", idx)
+	var runs atomic.Int32
+	prog := func(t, k string, ss grpc.ServerStream) error {
+		runs.Add(1)
+		ss.SendMsg(&svc.BV{Value: []byte("m")})
+		return nil
+	}
+	b.Impl.SetStream(tag, prog)
+	// a real service picks the handler by method, not by the harness's tag header (which a reset
+	// does not carry): whatever runs for this method is this program
+	b.Impl.DefS = prog
+	target.Store(1) // the connection's first call
+	m := svc.NewManualCtx(context.Background())
+	done := make(chan struct{})
+	go func() {
+		defer close(done)
+		s, err := svc.Open(m, b.Conns[0], kind, tag, nil)
+		if err != nil {
+			return
+		}
+		for {
+			if _, err := s.Recv(); err != nil {
+				return
+			}
+		}
+	}()
+	quiet(tier)
+	select {
+	case <-parked:
+		if idx%4 < 2 {
+			m.Cancel()
+		} else {
+			m.Fire()
+		}
+		quiet(tier) // the client's reset has reached the server
+		res.Stat("reset_after_handler_returned", 1)
+	default:
+	}
+	close(release)
+	settle(tier, func() bool {
+		select {
+		case <-done:
+			return true
+		default:
+			return false
+		}
+	})
+	quiet(tier)
+	if n := runs.Load(); n > 1 {
+		res.Violate("handler-restarted-by-stale-reset", "the handler of one streaming call ran %d times: a reset arriving after it had returned started it again", n)
+	}
+	finish(tier, b, h, res)
+	return res
+}
+
 func c06Run(tier string, seed int64, idx int) *core.Result {
 	c := c06List(tier, seed)[idx]
 	bed.ResetRecent()
@@ -440,6 +524,8 @@ func c06Run(tier string, seed int64, idx int) *core.Result {
 		sub = c06UnaryDeadline(tier, seed, c.Index)
 	case "directed-cancel-during-open-write":
 		sub = c06CancelDuringOpen(tier, seed, c.Index)
+	case "directed-reset-after-handler-returned":
+		sub = c06ResetAfterReturn(tier, seed, c.Index)
 	case "C01":
 		sub = c01Run(tier, seed, c.Index)
 	case "C02":
@@ -461,9 +547,12 @@ func c06Run(tier string, seed int64, idx int) *core.Result {
 	}
 	// each check reports only its own property: what the workload's own oracle found is not C06's business
 	for k, v := range sub.Stats {
-		if k == "send_parked_across_cancel" || k == "unary_deadline_in_handler" || k == "cancel_during_open_write" {
+		if k == "send_parked_across_cancel" || k == "unary_deadline_in_handler" || k == "cancel_during_open_write" || k == "reset_after_handler_returned" {
 			res.Stat(k, v)
 		}
+	}
+	if strings.HasPrefix(c.Source, "directed-") {
+		res.Violations = append(res.Violations, sub.Violations...) // the directed families are C06's own
 	}
 	for _, b := range bed.Recent {
 		for li, l := range b.Links {
@@ -501,11 +590,11 @@ func init() {
 	core.Register(&core.Prop{
 		ID:    "C06",
 		Level: "exploration",
-		Rule:  "trace checking: a fixed-seed sample of the C01, C02, C03 (matrix and race families), C07 and C11 case lists (quick ~850 cases, thorough ~11 500) is re-run and every client link's tap log is projected per (id, direction) and fed to the protocol automata (stream open / body* / trailer+status / resets; unary exactly one request and one response; constant and swapped header fields; metadata only on the first response; server emits only for received ids; server reset only after a body and never before the trailer; end-of-history rules: stream handler returned, no client reset, connection alive => trailer; unary handler returned, connection alive => one response; a client reset is never the first envelope of an id), plus directed families: a send parked across a cancel, a unary deadline expiring inside the handler, a cancel while the opening envelope is inside the transport Write. evaluations = workload cases; non-trivial = the case's wire history contains a reset or a non-OK trailer; distinct = distinct (workload, index).",
+		Rule:  "trace checking: a fixed-seed sample of the C01, C02, C03 (matrix and race families), C07 and C11 case lists (quick ~850 cases, thorough ~11 500) is re-run and every client link's tap log is projected per (id, direction) and fed to the protocol automata (stream open / body* / trailer+status / resets; unary exactly one request and one response; constant and swapped header fields; metadata only on the first response; server emits only for received ids; server reset only after a body and never before the trailer; end-of-history rules: stream handler returned, no client reset, connection alive => trailer; unary handler returned, connection alive => one response; a client reset is never the first envelope of an id), plus directed families: a send parked across a cancel, a unary deadline expiring inside the handler, a cancel while the opening envelope is inside the transport Write, a client reset reaching the server after the handler returned (trailer held in the writer). evaluations = workload cases; non-trivial = the case's wire history contains a reset or a non-OK trailer; distinct = distinct (workload, index).",
 		Plan:  func(tier string, seed int64) int { return len(c06List(tier, seed)) },
 		Run:   c06Run,
 		RequiredStats: func(string) []string {
-			return []string{"projections", "projections_with_reset_or_error", "handler_returns_checked", "envelopes", "send_parked_across_cancel", "unary_deadline_in_handler", "cancel_during_open_write"}
+			return []string{"projections", "projections_with_reset_or_error", "handler_returns_checked", "envelopes", "send_parked_across_cancel", "unary_deadline_in_handler", "cancel_during_open_write", "reset_after_handler_returned"}
 		},
 		Assumptions: []string{"the automata are transcribed from README.md and the property statement", "only client-side links are checked (one client = one id space)"},
 	})
